@@ -301,7 +301,7 @@ def run_one(net, prefix, op, dev, F_cache, res):
                 out.append(("resume-raised", f"{rop} after stopped {op}: {type(e).__name__}: {e}"))
     else:
         # completed: the contract of a True return
-        if ret is True and op[0] in ("bfs", "dfs") and op[2] is None:
+        if ret is True and op[0] in ("bfs", "dfs"):  # whatever the limits: True means the whole sub-diagram was explored
             import networkx as nx
             start = op[1] if op[1] is not None else 0
             reach = {start} | set(nx.descendants(sd.dag, start))
